@@ -287,6 +287,13 @@ def run(ctx):
                     ctx.violation('lut.electron_shells_start', 'count' if round_ == 0 else 'count:after-use', 'the start quantum numbers do not account for the electrons given'
                                   + (' (after the writers used the function and a caller edited a result)' if round_ else ''),
                                   {'kind': 'plain', 'nelectrons': n, 'max_am': mx, 'got': st, 'covered': covered})
+    # the default max_am spelled out or not: the same answer (also after the history above)
+    for n in range(0, 119):
+        a, b2 = impl.call(lut.electron_shells_start, n), impl.call(lut.electron_shells_start, n, 20)
+        ctx.case(('ess-default', n), True, 'ess-default-argument')
+        if a != b2:
+            ctx.violation('lut.electron_shells_start', 'default-argument', 'electron_shells_start(%d) = %s but electron_shells_start(%d, 20) = %s'
+                          % (n, a, n, b2), {'kind': 'plain', 'nelectrons': n})
     ok_counts = [n for n in range(0, 119) if impl.call(lut.electron_shells_start, n)[0] == 'ok']
     ctx.extra['electron_counts_accepted'] = ok_counts
     for need in (0, 2, 10, 18, 28, 36, 46, 54, 60, 68, 78, 86, 92, 118):
